@@ -63,6 +63,11 @@ pub enum UOp {
   BufferCountTime(u8, u8),
   SampleInterval(u8),
   GroupFlat(u8),
+  /// group_by(key = weight mod m) with each group reduced to its last item:
+  /// every group speaks at its terminal, so the order in which group_by hands
+  /// the source's terminal to its groups shows in the output
+  #[serde(alias = "GroupLast")]
+  GroupLast(u8),
   Average,
   /// timestamp() with the (real-clock) instant mapped away again
   Timestamp,
@@ -508,6 +513,10 @@ macro_rules! build_fn {
               let m = (*m as i64).max(1);
               s.group_by::<_, _, $subject>(move |v: &Val| v.weight().rem_euclid(m)).$flatten().box_it()
             }
+            UOp::GroupLast(m) => {
+              let m = (*m as i64).max(1);
+              s.group_by::<_, _, $subject>(move |v: &Val| v.weight().rem_euclid(m)).$flat_map(|g| g.take_last(1)).box_it()
+            }
             UOp::Average => s.average().box_it(),
             UOp::Timestamp => s.timestamp().map(|(v, _)| v).box_it(),
             UOp::OnComplete => {
@@ -761,6 +770,7 @@ fn gen_uop(rng: &mut Rng, cfg: &GenCfg) -> UOp {
         46 => UOp::ScanInitial,
         47 => UOp::ReduceInitial,
         48 => UOp::DistinctUntilKeyChanged,
+        49 => UOp::GroupLast(small + 2),
         _ => UOp::Map,
       }
     } else {
